@@ -11,6 +11,7 @@
   All theorems hold for any number of statements and any fan-in / fan-out.
 -/
 import VtlModel.Dag.SafeProof
+import VtlModel.Dag.SafeMeaning
 namespace VtlModel.C13
 open VtlModel.Dag
 
@@ -53,6 +54,61 @@ theorem final_pass_empty (s : List Stmt) (rop : Bool) (hnd : (outs s).Nodup) (hv
     replay rop s = loopEvents (usage s) rop 1 s := by
   obtain ⟨_, _, _, _, _, _, h⟩ := replay_spec s rop hnd hv
   exact h
+
+/-! ### what `Safe` means on the event history (for *any* history, not only replays) -/
+
+/-- **No use after release**: once a table is dropped, no later event reads, fetches, drops, loads
+    or creates it — so every drop comes after the table's last reader, and at most once. -/
+theorem safe_no_use_after_drop (tr a b : List Event) (x : Name) (hs : Safe tr)
+    (h : tr = a ++ Event.drop x :: b) : ∀ e ∈ b, e ∉ touches x := by
+  obtain ⟨σ, hr, _⟩ := hs
+  subst h
+  obtain ⟨σ1, σ2, h1, h2, h3⟩ := run_split hr
+  have hk := liveKnown_run a _ _ (by intro y hy; simp [Store.init] at hy) h1
+  have hd : Dead x σ2 := by
+    simp only [Store.step] at h2
+    split at h2
+    · rename_i hc
+      simp at h2; subst h2
+      have hx : x ∈ σ1.live := by simpa using hc
+      exact ⟨by simp, hk x hx⟩
+    · simp at h2
+  exact dead_run b σ2 σ hd h3
+
+/-- **Every read hits a live table** (loaded or created before, not yet dropped). -/
+theorem safe_read_live (tr a b : List Event) (x : Name) (hs : Safe tr)
+    (h : tr = a ++ Event.read x :: b) : ∃ σ, Store.run Store.init a = some σ ∧ x ∈ σ.live := by
+  obtain ⟨σ, hr, _⟩ := hs
+  subst h
+  obtain ⟨σ1, σ2, h1, h2, _⟩ := run_split hr
+  refine ⟨σ1, h1, ?_⟩
+  simp only [Store.step] at h2
+  split at h2
+  · rename_i hc; simpa using hc
+  · simp at h2
+
+/-- **Loaded / created at most once**: after a table is loaded or created, it is never loaded or
+    created again. -/
+theorem safe_load_create_once (tr a b : List Event) (x : Name) (hs : Safe tr)
+    (h : tr = a ++ Event.load x :: b ∨ tr = a ++ Event.create x :: b) :
+    Event.load x ∉ b ∧ Event.create x ∉ b := by
+  obtain ⟨σ, hr, _⟩ := hs
+  rcases h with h | h <;> subst h <;> obtain ⟨σ1, σ2, _, h2, h3⟩ := run_split hr <;>
+    apply known_stays b σ2 σ _ h3 <;> simp only [Store.step] at h2 <;> split at h2 <;>
+    simp at h2 <;> subst h2 <;> simp
+
+/-- **Everything is released**: a table that was loaded or created is dropped later. -/
+theorem safe_released (tr a b : List Event) (x : Name) (hs : Safe tr)
+    (h : tr = a ++ Event.load x :: b ∨ tr = a ++ Event.create x :: b) : Event.drop x ∈ b := by
+  obtain ⟨σ, hr, hl⟩ := hs
+  apply Classical.byContradiction
+  intro hnd
+  have : x ∈ σ.live := by
+    rcases h with h | h <;> subst h <;> obtain ⟨σ1, σ2, _, h2, h3⟩ := run_split hr <;>
+      apply live_stays b σ2 σ _ h3 hnd <;> simp only [Store.step] at h2 <;> split at h2 <;>
+      simp at h2 <;> subst h2 <;> simp
+  rw [hl] at this
+  simp at this
 
 /-! ### non-vacuity and sensitivity -/
 
